@@ -58,22 +58,44 @@ func rewardHistory(st db.DB) (map[uint64]map[types.Address]*c11amt, error) {
 	return out, nil
 }
 
+// The protocol's emission schedule, restated here (not read from the repository's tables): ZNN per epoch = n x 1440 ZNN
+// for the n of the epoch's reward tick, QSR per epoch likewise; a reward tick lasts RewardTickDurationInEpochs epochs
+// (30 on the live network, a value the harness shrinks together with the other windows), the last entry stays in force.
+// Shares: pillars 24 % (delegation) + 50 % (momentum production) of the ZNN, per momentum slot of the epoch; sentinels
+// 13 % of the ZNN and 25 % of the QSR; liquidity 13 % / 25 %; staking 50 % of the QSR. Divisions round down.
+var (
+	c11znnPerSixMomentums = []int64{10, 6, 5, 7, 5, 4, 7, 4, 3, 7, 3}
+	c11qsrPerEpoch        = []int64{20000, 20000, 20000, 20000, 15000, 15000, 15000, 5000}
+)
+
+const c11decimals, c11momentumsPerEpoch = int64(100000000), int64(8640)
+
+func c11network(epoch uint64) (znn, qsr int64) {
+	tick := int(epoch / constants.RewardTickDurationInEpochs)
+	zi, qi := tick, tick
+	if zi >= len(c11znnPerSixMomentums) {
+		zi = len(c11znnPerSixMomentums) - 1
+	}
+	if qi >= len(c11qsrPerEpoch) {
+		qi = len(c11qsrPerEpoch) - 1
+	}
+	return c11znnPerSixMomentums[zi] * c11momentumsPerEpoch / 6 * c11decimals, c11qsrPerEpoch[qi] * c11decimals
+}
+
 // emission of one epoch for a contract, from the statement's tables
 func c11emission(ct types.Address, epoch uint64) *c11amt {
+	znn, qsr := c11network(epoch)
 	switch ct {
 	case types.PillarContract:
-		d, p := constants.PillarRewardPerMomentum(epoch)
+		perMomentum := znn*24/100/c11momentumsPerEpoch + znn*50/100/c11momentumsPerEpoch
 		slots := int64(consensus.EpochDuration.Seconds()) / 10
-		per := new(big.Int).Add(d, p)
-		return &c11amt{per.Mul(per, big.NewInt(slots)), new(big.Int)}
+		return &c11amt{big.NewInt(perMomentum * slots), new(big.Int)}
 	case types.SentinelContract:
-		z, q := constants.SentinelRewardForEpoch(epoch)
-		return &c11amt{z, q}
+		return &c11amt{big.NewInt(znn * 13 / 100), big.NewInt(qsr * 25 / 100)}
 	case types.StakeContract:
-		return &c11amt{new(big.Int), constants.StakeQsrRewardPerEpoch(epoch)}
+		return &c11amt{new(big.Int), big.NewInt(qsr * 50 / 100)}
 	case types.LiquidityContract:
-		z, q := constants.LiquidityRewardForEpoch(epoch)
-		return &c11amt{z, q}
+		return &c11amt{big.NewInt(znn * 13 / 100), big.NewInt(qsr * 25 / 100)}
 	}
 	return newAmt()
 }
